@@ -1,0 +1,7 @@
+//go:build verif
+
+package decorator
+
+// VerifStripVendor exposes stripVendor to the verification harness (build tag verif) so that its
+// model can be compared with the implementation on arbitrary paths. It adds no behaviour.
+func VerifStripVendor(path string) string { return stripVendor(path) }
